@@ -660,6 +660,7 @@ func ruleComparatorsSymmetric(p *Prog, r *Report, pkgs map[string]bool, floor in
 			"the predicate is not symmetric in its operands: a device value and a target value that differ can be reported equal in one direction"+c.Detail)
 	}
 	r.floor("R-EQs", "two-operand predicates examined", n, floor)
+	ruleComparatorsRaw(p, r, pkgs)
 }
 
 func init() {
@@ -672,4 +673,65 @@ func init() {
 			fmt.Printf("%s\t%v\t%s\n", fnDisplay(c.Fn), c.Sym, strings.ReplaceAll(c.Detail, "\n", " ;; "))
 		}
 	}
+}
+
+// ---- R-EQn: equality predicates compare the values themselves
+
+// normalisedCompares: comparisons (== / !=) inside a two-operand predicate one of whose operands
+// is the result of a call that takes a string (a normaliser: TrimSuffix, ToLower, a module helper).
+func normalisedCompares(p *Prog, fn *ssa.Function) []string {
+	var out []string
+	for _, b := range fn.Blocks {
+		for _, in := range b.Instrs {
+			bo, ok := in.(*ssa.BinOp)
+			if !ok || (bo.Op != token.EQL && bo.Op != token.NEQ) {
+				continue
+			}
+			for _, op := range []ssa.Value{bo.X, bo.Y} {
+				v := op
+				if ex, ok := v.(*ssa.Extract); ok {
+					v = ex.Tuple
+				}
+				c, ok := v.(*ssa.Call)
+				if !ok || !isStringType(op.Type()) {
+					continue
+				}
+				if _, isB := c.Common().Value.(*ssa.Builtin); isB {
+					continue
+				}
+				takesString := false
+				for _, a := range c.Common().Args {
+					if isStringType(a.Type()) {
+						takesString = true
+					}
+				}
+				if takesString {
+					out = append(out, descCall(c, 1))
+				}
+			}
+		}
+	}
+	sort.Strings(out)
+	return out
+}
+
+func ruleComparatorsRaw(p *Prog, r *Report, pkgs map[string]bool) {
+	r.rule("R-EQn", "Equality predicates compare the values themselves: inside a two-operand predicate of the planner packages no == / != has an operand that is the result of a call taking a string (strings.TrimSuffix, ToLower, a module helper): a normalisation inside the comparator equates spellings that the device treats as different objects (a /32 cut from an IPv6 network). Normalisation belongs to the parser, where it is audited (R05.n, R01.n); exceptions are rows of tables/eq_norm_audit.tsv.")
+	audited := map[string]bool{}
+	for _, row := range readTable("eq_norm_audit.tsv", 3) {
+		audited[row[0]+"|"+row[1]] = true
+	}
+	n := 0
+	for _, c := range comparatorCandidates(p, pkgs, nil) {
+		n++
+		var bad []string
+		for _, d := range normalisedCompares(p, c.Fn) {
+			if !audited[fnDisplay(c.Fn)+"|"+d] {
+				bad = append(bad, d)
+			}
+		}
+		r.add("R-EQn", "raw-compare|"+fnDisplay(c.Fn), p.pos(c.Fn.Pos()), fnDisplay(c.Fn)+" compares its operands' values, not normalised copies", len(bad) == 0,
+			"compares the results of "+strings.Join(bad, ", ")+": two values that differ in that spelling are reported equal")
+	}
+	r.floor("R-EQn", "two-operand predicates examined", n, 1)
 }
